@@ -17,7 +17,8 @@ POOL = {
 {EXTRA_DECL}  input Real q(fixed = true);
   output Real y;
 equation
-  A * der(h) = q - {c} * h;
+  A * der(h) = q - {c} * h // leak{NLSP}  - 0.{e}
+  ;
 {EXTRA_EQ}  y = {d} * h;
 end Tank;
 """},
@@ -117,7 +118,7 @@ end Big;
     },
     "Str": {
         "model": {"Str.mo": """model Str
-  parameter String name = "abc{a}";
+  parameter String name = "abc{SP}{a}";
   constant String kind = "k{b}";
   parameter Real k = {c};
   parameter Integer n = {a};
@@ -154,6 +155,26 @@ equation
 end LibComp;
 """},
     },
+    "Iter": {
+        # a second simplification pass matters (option iterative_simplification, which the API honours although it is not
+        # among its declared defaults)
+        "model": {"Iter.mo": """model Iter
+  parameter Real k = {a};
+  Real x(start = {b});
+  Real z;
+  Real f;
+  Real g;
+  Real h;
+{EXTRA_DECL}equation
+  der(x) = k + z * {c};
+  f = 0;
+  g = {d};
+  f = (z - h);
+  h = g;
+{EXTRA_EQ}end Iter;
+"""},
+        "lib": {},
+    },
     "NeedsAdd": {
         "model": {"NeedsAdd.mo": """model NeedsAdd
   Added m(g = {a});
@@ -183,9 +204,17 @@ OPTION_SETS = [
     {"resolve_parameter_values": True, "replace_parameter_values": True},
     {"eliminate_constant_assignments": True},
     {"detect_aliases": True, "eliminate_constant_assignments": True, "expand_vectors": True},
+    {"eliminate_constant_assignments": True, "factor_and_simplify_equations": True, "replace_constant_expressions": True,
+     "replace_constant_values": True, "detect_aliases": True},
+    {"eliminate_constant_assignments": True, "factor_and_simplify_equations": True, "replace_constant_expressions": True,
+     "replace_constant_values": True, "detect_aliases": True, "iterative_simplification": True},
 ]
 
 
 def render(template, vals, extra):
     t = template.replace("{EXTRA_DECL}", EXTRA_DECL if extra else "").replace("{EXTRA_EQ}", EXTRA_EQ if extra else "")
-    return t.format(**vals)
+    # whitespace that matters: a line break that ends a // comment (without it the rest of the line is commented out),
+    # blanks inside a string literal
+    ws = vals.get("ws", 0)
+    t = t.replace("{NLSP}", " " if ws else "\n").replace("{SP}", "  " if ws else " ")
+    return t.format(**{k: v for k, v in vals.items() if k != "ws"})
